@@ -25,6 +25,40 @@ func resultDigest(r *CallResult) []string {
 // pool, and compares every call with the same call executed alone.
 var cappedParsers = map[string]int{}
 
+func digestHash(d []string) string {
+	h := fnv.New64a()
+	for _, l := range d {
+		h.Write([]byte(l))
+		h.Write([]byte{0})
+	}
+	return fmt.Sprintf("%x", h.Sum64())
+}
+
+// campaignC18Solo runs every call of the request alone and returns the hashes
+// of the result digests. The parent runs it in a fresh process: "alone" then
+// also means alone in the process, so that state the package keeps between
+// calls (caches filled by whoever came first) cannot hide in both sides of the
+// comparison.
+func campaignC18Solo(p *Parser, req *Request, resp *Response) {
+	for i := range req.Clients {
+		var row []string
+		for j := range req.Clients[i] {
+			c := req.Clients[i][j]
+			r := p.Solo(&c, simsync.PoolConfig{}, req.StepCap)
+			resp.Runs++
+			if r.Aborted || r.Overflow {
+				row = append(row, "capped")
+				continue
+			}
+			row = append(row, digestHash(resultDigest(r)))
+			if req.Full {
+				resp.Results = append(resp.Results, r)
+			}
+		}
+		resp.Digests = append(resp.Digests, row)
+	}
+}
+
 func campaignC18(p *Parser, req *Request, resp *Response) {
 	clients := req.Clients
 	stepCap := req.StepCap
@@ -130,6 +164,20 @@ func campaignC18(p *Parser, req *Request, resp *Response) {
 		}
 	}
 	record()
+	for i := range clients {
+		var row []string
+		for j := range clients[i] {
+			switch r := results[i][j]; {
+			case r == nil:
+				row = append(row, "lost")
+			case r.Aborted || r.Overflow:
+				row = append(row, "capped")
+			default:
+				row = append(row, digestHash(resultDigest(r)))
+			}
+		}
+		resp.Digests = append(resp.Digests, row)
+	}
 	add := func(class, msg string, detail map[string]any) {
 		resp.Violations = append(resp.Violations, Violation{Class: class, Msg: msg, Detail: detail, Choices: concChoices,
 			Attrs: map[string]string{"class": class, "clients": fmt.Sprint(len(clients)), "optimized": fmt.Sprint(!p.Has["Memoize"]), "strategy": fmt.Sprint(sc.Strategy)}})
